@@ -3,8 +3,8 @@
    Wrap*.v = models of the logic the momo::stdish wrappers add on top of the nested momo containers.
    Both are run (extracted) against the real momo::stdish AND libstdc++ containers on every check. *)
 From Coq Require Import ZArith List Permutation.
-From C06 Require Import Spec SpecProofs WrapOrdered WrapEq WrapErase History IterLoop GenRefine GenEq GenMisc GenNode.
-From C06 Require Gen_USetErase Gen_UMapErase Gen_UMMapErase Gen_SetHint Gen_MSetHint Gen_MapFind Gen_MMapFind Gen_MapAt Gen_SetEqr Gen_UMapCreate Gen_SetCreate Gen_SetNodeHint Gen_MSetNodeHint Gen_USetNodeHint Gen_UMapNodeHint Gen_Vector Gen_MapIoa.
+From C06 Require Import Spec SpecProofs WrapOrdered WrapEq WrapErase History IterLoop GenRefine GenEq GenMisc GenNode GenCmp.
+From C06 Require Gen_USetErase Gen_UMapErase Gen_UMMapErase Gen_SetHint Gen_MSetHint Gen_MapFind Gen_MMapFind Gen_MapAt Gen_SetEqr Gen_UMapCreate Gen_SetCreate Gen_SetNodeHint Gen_MSetNodeHint Gen_USetNodeHint Gen_UMapNodeHint Gen_Vector Gen_MapIoa Gen_SetCmp Gen_SetCmpD Gen_MapCmp Gen_MapCmpD Gen_VecCmp Gen_VecCmpD Gen_SetNodeIns Gen_USetNodeIns Gen_SetMerge.
 From MomoCommon Require Import GenPrelude.
 Import ListNotations.
 
@@ -412,6 +412,41 @@ Theorem C06_gen_map_insert_or_assign_spec : forall (emplace_ : Z -> Z -> Z -> Z 
   (emplace_ h k v, if snd (emplace_ h k v) then st else ev_assign st (fst (emplace_ h k v)) v).
 Proof. exact gen_map_insert_or_assign_spec. Qed.
 Print Assumptions C06_gen_map_insert_or_assign_spec.
+
+(* ===== (2i) relational operators, insert(node&&), extract(key), merge as regenerated ===== *)
+
+(* the six relational operators of set/multiset (and, same code, map/multimap; vector except ==) as translated - bare std::equal /
+   std::lexicographical_compare calls plus the derived one-liners - are the specification's cmp6 (element-wise ==, lexicographic <) *)
+Theorem C06_gen_cmp6 : forall l r,
+  [g_eq l r 0 1; Gen_SetCmpD.op_ne (g_eq l r) 0 1; g_lt l r 0 1; Gen_SetCmpD.op_le (g_lt l r) 0 1;
+   Gen_SetCmpD.op_gt (g_lt l r) 0 1; Gen_SetCmpD.op_ge (g_le l r) 0 1]%Z = cmp6 l r.
+Proof. exact gen_cmp6. Qed.
+Print Assumptions C06_gen_cmp6.
+
+Theorem C06_gen_map_cmp_same_code : Gen_MapCmp.op_eq = Gen_SetCmp.op_eq /\ Gen_MapCmp.op_lt = Gen_SetCmp.op_lt /\
+  Gen_MapCmpD.op_ne = Gen_SetCmpD.op_ne /\ Gen_MapCmpD.op_gt = Gen_SetCmpD.op_gt /\ Gen_MapCmpD.op_le = Gen_SetCmpD.op_le /\ Gen_MapCmpD.op_ge = Gen_SetCmpD.op_ge.
+Proof. exact map_cmp_same_code. Qed.
+Print Assumptions C06_gen_map_cmp_same_code.
+
+Theorem C06_gen_vector_cmp_same_code : Gen_VecCmp.op_lt = Gen_SetCmp.op_lt /\
+  Gen_VecCmpD.op_ne = Gen_SetCmpD.op_ne /\ Gen_VecCmpD.op_gt = Gen_SetCmpD.op_gt /\ Gen_VecCmpD.op_le = Gen_SetCmpD.op_le /\ Gen_VecCmpD.op_ge = Gen_SetCmpD.op_ge.
+Proof. exact vec_cmp_same_code. Qed.
+Print Assumptions C06_gen_vector_cmp_same_code.
+
+(* insert(node_type&&) as translated: {end, false, empty} for an empty node, else {position, inserted, inserted ? empty : the node} *)
+Theorem C06_gen_set_insert_node_spec : forall multi l node,
+  gen_set_insert_node multi l node =
+  match node with
+  | None => (Z.of_nat (length l), false, 0%Z)
+  | Some x => let '(i, ins, _) := ord_insert multi x l in (Z.of_nat i, ins, if ins then 0%Z else 1%Z)
+  end.
+Proof. exact gen_set_insert_node_spec. Qed.
+Print Assumptions C06_gen_set_insert_node_spec.
+
+Theorem C06_gen_unordered_set_node_insert_same_code :
+  Gen_USetNodeIns.insert_node = Gen_SetNodeIns.insert_node /\ Gen_USetNodeIns.extract_key = Gen_SetNodeIns.extract_key.
+Proof. exact uset_node_ins_same_code. Qed.
+Print Assumptions C06_gen_unordered_set_node_insert_same_code.
 
 (* ===== (3) non-vacuity: the pre-fix shapes of the three repaired functions violate the same statements ===== *)
 Theorem C06_unordered_erase_range_prefix_refuted : exists l first last ps,
